@@ -711,6 +711,10 @@ impl<'a> Gen<'a> {
                 "r#{}",
                 ["type", "match", "box", "loop", "struct", "fn", "move", "ref"][idx]
             ),
+            // Words that are keywords only in some contexts or editions, written plainly.
+            5 if idx < 8 => {
+                ["gen", "union", "raw", "safe", "auto", "default", "macro_rules", "catch"][idx].to_string()
+            }
             1 => format!("Foo{}", "X".repeat(idx)),
             2 => match kind {
                 'T' => format!("Node{idx}"),
@@ -1374,7 +1378,7 @@ pub fn gen_valid(rng: &mut Rng, cfg: &GenCfg, ptr: usize) -> Project {
         addr_counter: 0x1000,
         names: 0,
     };
-    g.names = *g.rng.pick(&[0usize, 0, 0, 1, 2, 3, 4]);
+    g.names = *g.rng.pick(&[0usize, 0, 0, 1, 2, 3, 4, 5]);
     let nitems = g.cfg.max_items;
     for idx in 0..nitems {
         let m = g.rng.below(nmod);
